@@ -152,6 +152,19 @@ def run(tier):
                         ok = bool(outs) and all(o.kind == "ret" and len([e for e in o.effects if e[0] == "icall"]) == 1 and
                                                 sem.strip([e for e in o.effects if e[0] == "icall"][0][1])[0] == "fld" and
                                                 sem.strip([e for e in o.effects if e[0] == "icall"][0][1])[3] == "wake_by_ref" for o in outs)
+                    if role == "wake":
+                        # the handle keeps the shared record (and with it the caller's waker clone) alive: it may be released only after the
+                        # record's wake_by_ref entry has returned
+                        ev2 = sem.Evaluator(fns, {}, inline=lambda q: q in fns)
+                        outs2 = ev2.run(fns[p], [("sym", "data")])
+                        order_ok = bool(outs2)
+                        for o2 in outs2:
+                            idx_call = [k for k, e in enumerate(o2.effects) if e[0] == "icall"]
+                            idx_rel = [k for k, e in enumerate(o2.effects) if (e[0] == "drop" and "BaseArc" in (e[2] or "")) or
+                                       (e[0] == "call" and e[1] in ("std::mem::drop", "core::mem::drop") and sem.contains(e[2][0], lambda x: x[0] == "opq" and x[2][0] == "call" and x[2][1].endswith("BaseArc::<T>::from_raw")))]
+                            order_ok = order_ok and o2.kind == "ret" and len(idx_call) == 1 and bool(idx_rel) and all(k > idx_call[0] for k in idx_rel)
+                        ck.ob("W6-wake-before-release", "task/" + p, order_ok,
+                              "%s releases its handle before the record's wake_by_ref entry has run: if it was the last handle the caller's waker clone is already released when it is woken" % p)
                     ck.ob("W5-owned-waker-wakes-once", "task/" + p, ok, "%s must wake the shared record exactly once through its wake_by_ref slot" % p)
         # to_raw itself leaks the handle into the RawWaker data pointer
         o = mir.Body(tr).origin_local(0)
